@@ -94,3 +94,56 @@ func init() {
 		Stubs: []string{"os.Stat in NewFileIP (absent)", "os.Exit (ends the run, reported as kind exit)"},
 	})
 }
+
+func init() {
+	var q, th []H
+	for n := 0; n <= 3; n++ {
+		L := 3
+		if n == 3 {
+			L = 2
+		}
+		q = append(q, H{Pkg: "scipipe", Fn: "VxH18join", Params: p("L", L, "n", n), MustReach: []string{"task-built"}, MustAssert: []string{"C18.joined-in-order", "C18.all-members-collected", "C18.substream-drained"}})
+		th = append(th, H{Pkg: "scipipe", Fn: "VxH18join", Params: p("L", L+1, "n", n), MustReach: []string{"task-built"}, MustAssert: []string{"C18.joined-in-order", "C18.all-members-collected", "C18.substream-drained"}})
+		q = append(q, H{Pkg: "components", Fn: "VxH18sts", Params: p("n", n, "preempt", 3), MustReach: []string{"ran"}, MustAssert: []string{"C18.sts-one-carrier", "C18.sts-all-members"}})
+		th = append(th, H{Pkg: "components", Fn: "VxH18sts", Params: p("n", n, "preempt", 6), MustReach: []string{"ran"}, MustAssert: []string{"C18.sts-one-carrier", "C18.sts-all-members"}})
+	}
+	for _, ab := range [][2]int{{1, 1}, {2, 1}, {0, 2}} {
+		q = append(q, H{Pkg: "scipipe", Fn: "VxH18two", Params: p("na", ab[0], "nb", ab[1]), MustReach: []string{"task-built"}, MustAssert: []string{"C18.two.each-port-own-substream"}})
+		th = append(th, H{Pkg: "scipipe", Fn: "VxH18two", Params: p("na", ab[0], "nb", ab[1]), MustReach: []string{"task-built"}, MustAssert: []string{"C18.two.each-port-own-substream"}})
+	}
+	th = append(th, H{Pkg: "scipipe", Fn: "VxH18two", Params: p("na", 2, "nb", 2), MustReach: []string{"task-built"}, MustAssert: []string{"C18.two.each-port-own-substream"}})
+	regCheck(&Check{
+		ID: "C18", Quick: q, Thorough: th,
+		Bounds: map[string]string{
+			"sub-stream length": "0..3 members, channel buffer 1 (so the stream is longer than the buffer)",
+			"member paths":      "every valid path of <= 3 bytes (<= 2 for 3 members) quick / one byte more thorough, relative and absolute",
+			"separator":         "space, comma, colon; with and without a %suffix modifier",
+			"two joined ports":  "sub-streams of (1,1), (2,1), (0,2) members, symbolic map iteration order in NewTask",
+			"StreamToSubStream": "FileSource -> StreamToSubStream -> consumer with 0..3 files, up to 3 (quick) / 6 (thorough) pre-emptions chosen by the solver among the runnable goroutines",
+		},
+		Outside:     []string{"longer sub-streams", "audit Upstream of joined members is checked with C10"},
+		Assumptions: commonAssumptions,
+		Stubs:       []string{"os.Stat in NewFileIP (absent)", "ioutil.TempFile (model file system)", "goroutines: cooperative scheduler, run-to-block plus bounded pre-emption"},
+	})
+}
+
+func init() {
+	var q []H
+	for sh := 0; sh <= 4; sh++ {
+		q = append(q, H{Pkg: "cmd_scipipe", Fn: "VxH20", Params: p("shape", sh), MustReach: []string{"converted"}, MustAssert: []string{"C20.every-record-listed-once", "C20.ordered-by-start-time"}, Native: true})
+	}
+	regCheck(&Check{
+		ID: "C20", Quick: q, Thorough: q,
+		Bounds: map[string]string{
+			"audit trees": "5 shapes with 3..6 records: chain, fan-in of two sources with the zero start time, diamond with a shared ancestor, fan-in of three with possibly equal start times, resumed run where one path key carries two different task records",
+			"start times": "symbolic instants in 1..4 ns (so equalities and every relative order occur), zero time for sources",
+			"map order":   "iteration order of the record maps in extractAuditInfosByID / sortAuditInfosByStartTime is a symbolic choice",
+		},
+		Outside: []string{
+			"text/template rendering of the HTML / TeX / Bash reports and execution of the generated script (reflection-driven library code; only the record list handed to the templates is checked)",
+			"trees with more than 6 records",
+		},
+		Assumptions: append([]string{"sort.Slice is modelled as an insertion sort calling the real less closure; the property checked (permutation + sortedness) does not depend on the algorithm"}, commonAssumptions...),
+		Stubs:       []string{"sort.Slice", "time.Time (instant only)", "randSeqLC"},
+	})
+}
